@@ -87,12 +87,19 @@ class C13(Prop):
                                   {"start": start, "days": sorted(days), "got": text, "want": [want[0], WD[want[1]]], "zone": zone, "now": now})
 
     def run_case(self, case, acc, ctx):
+        import calendar
+
         zone, now = case["zone"], case["now"]
+        # process-wide settings a host application may have changed for its own purposes
+        calendar.setfirstweekday((calendar.MONDAY, calendar.SUNDAY, calendar.SATURDAY, calendar.WEDNESDAY)[now % 4])
+        if now % 5 == 0:
+            now = now - now % 60 + 59 + (0.5, 0.999, 0.001)[now % 3]     # the last second before the next minute
         clock.set_zone(zone)
         loc = clock.local(zone, now)
         utc = datetime.fromtimestamp(now, timezone.utc)
         wd, now_min = loc.weekday(), loc.hour * 60 + loc.minute
         r = env.rng("C13", "grid", zone, now)
+        now_i = int(now)
         grid = {(now_min - 1) % 1440, now_min, (now_min + 1) % 1440, 0, 1439, (now_min - 60) % 1440, (now_min + 60) % 1440}
         while len(grid) < 7 + case["extra"]:
             grid.add(r.randrange(1440))
@@ -101,10 +108,10 @@ class C13(Prop):
         # other parts of the library have been used earlier, at another time: a listing that failed to parse and one that parsed
         from ..ref import replies as _rp
 
-        with clock.virtual_time(now - 3 * 86400 - 4000 if now % 3 else now - 40):
-            for mask in ((0x54, 0xFF) if now % 2 else ()):     # the failing one last: nothing afterwards tidies up behind it
+        with clock.virtual_time(now - 3 * 86400 - 4000 if now_i % 3 else now - 40):
+            for mask in ((0x54, 0xFF) if now_i % 2 else ()):     # the failing one last: nothing afterwards tidies up behind it
                 try:
-                    self.parser.get_schedules(_rp.schedules([_rp.schedule_record(0, 0x02, now, now + 60), _rp.schedule_record(1, mask, now, now + 60)]))
+                    self.parser.get_schedules(_rp.schedules([_rp.schedule_record(0, 0x02, now_i, now_i + 60), _rp.schedule_record(1, mask, now_i, now_i + 60)]))
                 except Exception:
                     acc.count("earlier_listing_that_failed")
         with clock.virtual_time(now) as traveller:
@@ -114,7 +121,7 @@ class C13(Prop):
                 t2 = now + later
                 traveller.move_to(float(t2))
                 loc2 = clock.local(zone, t2)
-                some = [ALL_SETS[(now + k * 37) % 128] for k in range(24)]
+                some = [ALL_SETS[(now_i + k * 37) % 128] for k in range(24)]
                 self._pass(acc, f, zone, t2, loc2.weekday(), loc2.hour * 60 + loc2.minute, datetime.fromtimestamp(t2, timezone.utc), grid, some)
             traveller.move_to(float(now))
             # through the schedule object
